@@ -1,6 +1,7 @@
 package main
 
 import (
+	"go/token"
 	"fmt"
 	"go/types"
 	"sort"
@@ -9,7 +10,11 @@ import (
 	"golang.org/x/tools/go/ssa"
 )
 
-func init() { register("C17", "the AST walker reaches every node of every parsed program", checkC17) }
+func init() { register("C17", "the AST walker reaches every node of every parsed program", func(p *Program, r *Report) {
+		checkC17(p, r)
+		r.Explain("R4 a return that comes before a walker looks at its node is taken only when the node or the callback is nil.")
+		c17EarlyExits(p, r)
+	}) }
 
 // walker describes one function of astutil that walks nodes of a category.
 type walker struct {
@@ -933,4 +938,94 @@ func isRangeIndexAny(idx ssa.Value, nv ssa.Value, st *types.Struct) bool {
 		return hasInit && hasStep && check(phi)
 	}
 	return false
+}
+
+// c17EarlyExits (R4): a walker looks at every non-nil node: a return that comes before the walker examines the node's kind (or
+// before a forwarding walker calls on) is taken only when the node or the callback is nil.
+func c17EarlyExits(p *Program, r *Report) {
+	sp := p.SSAPkg("ast/astutil")
+	if sp == nil {
+		return
+	}
+	n := 0
+	for _, fn := range SrcFuncs(sp) {
+		if len(fn.Params) < 2 || fn.Parent() != nil || len(fn.Blocks) == 0 {
+			continue
+		}
+		if _, ok := fn.Params[len(fn.Params)-1].Type().Underlying().(*types.Signature); !ok {
+			continue
+		}
+		// the first place the node is looked at: a type assertion on it, or a call that passes it (or an element of it) on
+		var work *ssa.BasicBlock
+		for _, b := range fn.Blocks {
+			for _, in := range b.Instrs {
+				switch x := in.(type) {
+				case *ssa.TypeAssert:
+					if x.X == ssa.Value(fn.Params[0]) && work == nil {
+						work = b
+					}
+				case *ssa.Call:
+					if work == nil && x.Call.Value != nil {
+						for _, a := range x.Call.Args {
+							if ci, ok := a.(*ssa.ChangeInterface); ok {
+								a = ci.X
+							}
+							if mi, ok := a.(*ssa.MakeInterface); ok {
+								a = mi.X
+							}
+							if a == ssa.Value(fn.Params[0]) {
+								work = b
+							}
+						}
+						if x.Call.Value == ssa.Value(fn.Params[len(fn.Params)-1]) {
+							work = b
+						}
+					}
+				case *ssa.Range, *ssa.Next:
+					if work == nil {
+						work = b
+					}
+				}
+			}
+			if work != nil {
+				break
+			}
+		}
+		if work == nil {
+			continue
+		}
+		for _, b := range fn.Blocks {
+			ret, ok := b.Instrs[len(b.Instrs)-1].(*ssa.Return)
+			if !ok || b == work || work.Dominates(b) {
+				continue
+			}
+			n++
+			// every edge into this early exit is the true edge of `param == nil`
+			good := len(b.Preds) > 0
+			for _, pr := range b.Preds {
+				iff, ok := pr.Instrs[len(pr.Instrs)-1].(*ssa.If)
+				okEdge := false
+				if ok && pr.Succs[0] == b {
+					if bo, ok := iff.Cond.(*ssa.BinOp); ok && bo.Op == token.EQL && isNilConst(bo.Y) {
+						if _, isPar := bo.X.(*ssa.Parameter); isPar {
+							okEdge = true
+						}
+					}
+				}
+				if ok && pr.Succs[1] == b {
+					if bo, ok := iff.Cond.(*ssa.BinOp); ok && bo.Op == token.NEQ && isNilConst(bo.Y) {
+						if _, isPar := bo.X.(*ssa.Parameter); isPar {
+							okEdge = true
+						}
+					}
+				}
+				if !okEdge {
+					good = false
+				}
+			}
+			r.Check(good, "C17.R4", fmt.Sprintf("%s|early exit at block %d", fn.Name(), b.Index), p.Pos(instrPos(ret)), "taken only for a nil node or a nil callback",
+				"the walker can return before it looks at the node for a reason other than the node or the callback being nil: whole subtrees are skipped without an error")
+		}
+	}
+	r.Floor("C17.R4", n, 3)
 }
